@@ -1,7 +1,7 @@
 (* C04 — generation is deterministic and a second run is a fixed point.
    Statements only; proofs are in Proofs/Determinism.v.  The model (Model/Determinism.v) takes every
    range over a Go map / sync.Map from an order oracle; [shuffles o] is all that is known about it. *)
-Require Import Gengo.Base.Bytes Gengo.Model.Determinism Gengo.Proofs.Determinism.
+Require Import Gengo.Base.Bytes Gengo.Model.Determinism Gengo.Proofs.Determinism Gengo.Proofs.DeterminismWitness.
 From Coq Require Import Permutation Sorted.
 
 (* Same module, arguments and generators; ANY two behaviours of the runtime at every map range
@@ -110,7 +110,9 @@ Proof. exact settled_forever. Qed.
 Print Assumptions C04_fixed_point_any_number_of_runs.
 
 (* non-vacuity: the witness module is well formed, both oracles are legal, the run does something,
-   the scripted generators satisfy the hypothesis of the fixed-point theorems, and so do the rest *)
+   the scripted generators satisfy the hypothesis of the fixed-point theorems, and so do the rest
+   (here [loaded] holds because the tree [wit_fs] is EMPTY; on a tree with previous outputs and a previous gengo.sum:
+   C04_hypotheses_satisfiable_on_a_used_tree below) *)
 Example C04_hypotheses_satisfiable :
   wf_world wit_world /\ wf_args wit_args /\ shuffles oid /\ shuffles rev_oracle
   /\ log_of (run true true wit_render (fun _ => []) rev_oracle wit_args [bs "m/a"] wit_world wit_gens wit_fs)
@@ -128,11 +130,89 @@ Proof.
   split; [repeat constructor; intros []|reflexivity].
 Qed.
 
-(* the second run of the witness, computed: same file, same bytes *)
+(* the FIRST (and only) run of that small witness under the reversing oracle, computed: the file and its bytes.
+   (On the EMPTY tree [wit_fs] with [reload wit_world wit_world]; a genuine second run is C04_second_run_computed below.) *)
 Example C04_fixed_point_witness :
   file_of (run true true wit_render (fun _ => []) rev_oracle wit_args [bs "m/a"] wit_world wit_gens wit_fs) (bs "a", bs "zz_generated.rec.go")
   = Some (bs "G;Gm(M0,M1,);").
 Proof. exact (proj2 wit_run_nontrivial). Qed.
+
+(* ---- non-vacuity on a module that is NOT empty (Proofs/DeterminismWitness.v): packages m/a and m/b, generators "rec" and
+   "other" (an AliasGenerator), a tree that already holds a stale zz_generated.old.go, a previous zz_generated.rec.go,
+   a look-alike zz_generatedx.go, user files and a previous gengo.sum with two lines (read by the byte-level parser
+   of Model/SumFile.v); All and Force.  [d_world0] is the load before run 1, [d_world1] the load before run 2 (the
+   generated files are among the packages' files, the directory hashes differ). ---- *)
+Example C04_hypotheses_satisfiable_on_a_used_tree :
+  wf_world d_world0 /\ wf_world d_world1 /\ wf_args d_args /\ shuffles oid /\ shuffles rev_oracle
+  /\ NoDup (map pk_dir (w_pkgs d_world0)) /\ is_gen_name d_args sum_name = false
+  /\ Forall reads_sources_only d_gens /\ reload d_world0 d_world1
+  /\ loaded d_args d_world0 d_fs0 /\ regen_all d_args d_world0 d_fs0
+  /\ d_fs0 (bs "a", bs "zz_generated.old.go") = Some (bs "stale")
+  /\ d_fs0 (w_moddir d_world0, sum_name) = Some d_prev_sum
+  /\ d_parse_sum d_prev_sum = [(bs "m/a", bs "h1:old"); (bs "m/b", bs "h1:b0")].
+Proof. exact d_hypotheses. Qed.
+
+(* the FIRST run on that tree, computed: the calls; the stale file removed, the previous output replaced, look-alike
+   and user files untouched; gengo.sum rewritten with the hashes of the first load *)
+Example C04_first_run_on_a_used_tree :
+  log_of d_run1
+  = Some [(bs "m/a", bs "rec", [mk_call CType (bs "T") 306; mk_call CType (bs "U") 406]);
+          (bs "m/a", bs "other", [mk_call CAlias (bs "A") 506; mk_call CType (bs "U") 406]);
+          (bs "m/b", bs "rec", []);
+          (bs "m/b", bs "other", [mk_call CType (bs "V") 706])]
+  /\ map (file_of d_run1) d_paths
+     = [Some (bs "package a"); None;
+        Some (bs "package a;import bytes;import fmt;import sort;G;Gm(M0,M1,);H;D;");
+        Some (bs "package a;O;"); Some (bs "look-alike");
+        Some (bs "package b"); Some (bs "package b;V1;V2;"); None; Some (bs "R")]
+  /\ file_of d_run1 d_sum = Some (bs "m/a h1:a0" ++ [nl10] ++ bs "m/b h1:b0" ++ [nl10]).
+Proof. exact d_first_run. Qed.
+
+(* THE SECOND RUN, computed: [d_run2] runs on [d_fs1], the tree run 1 left, with the re-loaded packages and the other
+   behaviour of the runtime at every map range.  Same calls; every path of the module except gengo.sum holds what it
+   held (nothing rewritten differently, added or removed); gengo.sum now records the hashes of the second load —
+   which is why C04_fixed_point excludes that one path. *)
+Example C04_second_run_computed :
+  log_of d_run2 = log_of d_run1
+  /\ map (file_of d_run2) d_paths = map (file_of d_run1) d_paths
+  /\ map (file_of d_run2) d_paths = map d_fs1 d_paths
+  /\ file_of d_run2 d_sum = Some (bs "m/a h1:a1" ++ [nl10] ++ bs "m/b h1:b1" ++ [nl10])
+  /\ file_of d_run2 d_sum <> file_of d_run1 d_sum.
+Proof. exact d_second_run. Qed.
+
+(* C04_fixed_point APPLIED to that module (every hypothesis discharged): the statement for all paths at once *)
+Example C04_fixed_point_instance :
+  exists f2 log2, d_run2 = Some (f2, log2) /\ forall q, q <> (w_moddir d_world1, sum_name) -> f2 q = d_fs1 q.
+Proof. exact d_fixed_point_instance. Qed.
+Print Assumptions C04_fixed_point_instance.
+
+(* ... and C04_fixed_point_any_number_of_runs: three further runs on alternating loads and behaviours *)
+Example C04_any_number_of_runs_instance :
+  exists f', runs_to d_render d_parse_sum d_args d_entry d_gens d_fs1 [(d_world1, rev_oracle); (d_world0, oid); (d_world1, oid)] f'
+             /\ forall q, generated d_args q = true -> f' q = d_fs1 q.
+Proof. exact d_any_number_instance. Qed.
+Print Assumptions C04_any_number_of_runs_instance.
+
+(* PERMUTED ENTRYPOINTS under the other behaviour of the runtime: same calls, same bytes at every path (computed),
+   and C04_order_independent applied *)
+Example C04_permuted_entrypoints :
+  rev d_entry = [bs "m/a"; bs "m/b"]
+  /\ log_of d_run1_perm = log_of d_run1
+  /\ map (file_of d_run1_perm) (d_sum :: d_paths) = map (file_of d_run1) (d_sum :: d_paths)
+  /\ out_equiv d_run1 d_run1_perm.
+Proof. exact d_permuted_entrypoints. Qed.
+
+(* without All only the entrypoints are generated and gengo.sum stays: two entrypoints in either order give the same
+   tree and calls; with m/a alone m/b gets no file *)
+Example C04_permuted_entrypoints_direct :
+  let r e o := run true true d_render d_parse_sum o d_args_direct e d_world0 d_gens d_fs0 in
+  map (file_of (r [bs "m/a"; bs "m/b"] oid)) (d_sum :: d_paths) = map (file_of (r [bs "m/b"; bs "m/a"] rev_oracle)) (d_sum :: d_paths)
+  /\ log_of (r [bs "m/a"; bs "m/b"] oid) = log_of (r [bs "m/b"; bs "m/a"] rev_oracle)
+  /\ file_of (r [bs "m/a"; bs "m/b"] oid) d_sum = Some d_prev_sum
+  /\ file_of (r [bs "m/a"; bs "m/b"] oid) (bs "b", bs "zz_generated.other.go") = Some (bs "package b;V1;V2;")
+  /\ file_of (r [bs "m/a"] oid) (bs "b", bs "zz_generated.other.go") = None
+  /\ out_equiv (r [bs "m/a"; bs "m/b"] oid) (r [bs "m/b"; bs "m/a"] rev_oracle).
+Proof. exact d_direct_entrypoints. Qed.
 
 (* ---- the composed system (Model/Whole.v, Model/WholeDet.v, Props/Whole.v): this file's model and the pipeline model
    (C07 / C05 / C02; Model/Pipeline.v under Whole.whole_env) are models of one system ----
